@@ -417,6 +417,34 @@ fn enc_node(n: &Node, base: usize, depth: usize, out: &mut Vec<u8>, lay: &mut Ve
     }
 }
 
+/// can the reference encoder encode this document (every explicit width able to hold its size)?
+pub fn encodable(doc: &[Node]) -> bool {
+    fn rec(n: &Node) -> Option<usize> {
+        let body = match &n.kind {
+            Kind::Leaf { raw, .. } | Kind::RawLeaf(raw) => raw.len(),
+            Kind::Master(ch) => {
+                let mut t = 0;
+                for c in ch {
+                    t += rec(c)?;
+                }
+                t
+            }
+        };
+        let w = match n.size {
+            SizeEnc::Min => min_size_width(body as u64),
+            SizeEnc::Width(w) => {
+                if (body as u128) >= (1u128 << (7 * w as u32)) - 1 {
+                    return None;
+                }
+                w as usize
+            }
+            SizeEnc::Unknown(w) => w as usize,
+        };
+        Some(id_bytes(n.id).len() + w + body)
+    }
+    doc.iter().all(|n| rec(n).is_some())
+}
+
 /// bytes + layout (DFS order, one entry per node)
 pub fn ref_encode(doc: &[Node]) -> (Vec<u8>, Vec<Lay>) {
     let mut out = Vec::new();
